@@ -600,13 +600,15 @@ def run_rig(wd, concrete, name):
 
 def selftest(cases_by_id, concrete, results, prompt_ms):
     """The judge must reject corrupted observations (anti-vacuity of the comparison)."""
-    detected, tried = 0, 0
-    picks = [c for c in concrete if results[c["id"]]["status"] in (200, 400, 401)][:40:4]
-    for c in picks:
+    detected, tried, picked = 0, 0, 0
+    for c in concrete[::5]:
+        if picked >= 10:
+            break
         case = cases_by_id[c["abs"]]
         base = results[c["id"]]
-        if judge(case, base, prompt_ms):
+        if base["status"] not in (200, 400, 401) or judge(case, base, prompt_ms):
             continue
+        picked += 1
         for mut in ("5xx", "255", "changed", "slow", "notjson"):
             r = dict(base)
             if mut == "5xx":
@@ -628,7 +630,8 @@ def selftest(cases_by_id, concrete, results, prompt_ms):
             tried += 1
             if judge(case, r, prompt_ms):
                 detected += 1
-    if tried == 0 or detected != tried:
+    # (no conforming observation to corrupt: every request disagrees, which the run reports by itself)
+    if detected != tried:
         raise ToolError("binding self-test: %d of %d corrupted observations were rejected" % (detected, tried))
     return detected
 
@@ -656,7 +659,7 @@ def main(tier, replay=None):
 
     sd = seed()
     rng = random.Random(sd)
-    k = 3 if tier == "quick" else 16
+    k = 3 if tier == "quick" else 32
     n_new = sum(1 for c in cases if c["signer"] == "new") * (2 * k + 4) + 50
     p = subprocess.run([RIG, "info", os.path.join(wd, "info"), str(n_new)], stdout=subprocess.PIPE, stderr=subprocess.PIPE,
                        text=True, timeout=600)
@@ -678,7 +681,12 @@ def main(tier, replay=None):
             c["abs"] = i
             concrete.append(c)
     results, summary = run_rig(wd, concrete, "run")
-    stats["selftest_corruptions_detected"] = selftest(cases_by_id, concrete, results, prompt_ms)
+    selftest_error = None
+    try:
+        stats["selftest_corruptions_detected"] = selftest(cases_by_id, concrete, results, prompt_ms)
+    except ToolError as e:       # must not hide what the run itself finds: reported only when nothing else is
+        selftest_error = e
+        stats["selftest_corruptions_detected"] = 0
 
     executed_abs = set()
     distinct_bytes = set()
@@ -720,6 +728,8 @@ def main(tier, replay=None):
     not_run = {c["abs"] for c in concrete if results[c["id"]]["io"] == "skipped"}
     nontrivial = sum(1 for i in executed_abs if cases_by_id[i]["fam"] in ("size", "body", "fields", "ctype"))
     nviol = verdict.finish()
+    if selftest_error and not nviol:
+        raise selftest_error
     fam_counts = {}
     for i in executed_abs:
         fam_counts[cases_by_id[i]["fam"]] = fam_counts.get(cases_by_id[i]["fam"], 0) + 1
